@@ -637,7 +637,11 @@ def run(tier, seed, ev, vd):
         ev.extra['write_model_deviations'] = 0
         if deviants:
             deviants.sort(key=lambda d: size_of(d['mol']))
-            verdicts, (d, g, w) = judge_events(deviants[:3000], pool)
+            if len(deviants) > 12000:       # the 6000 smallest and a seeded sample of the rest
+                rest = deviants[6000:]
+                random.Random(seed).shuffle(rest)
+                deviants = deviants[:6000] + rest[:6000]
+            verdicts, (d, g, w) = judge_events(deviants, pool)
             failed = []
             for e, v in zip(deviants, verdicts):
                 if v == 'ok':
